@@ -76,11 +76,15 @@ def run(tier, seed):
 
 
 def validate_events(rep, events, describe):
+    return validate_events_generic("Trace_Schema", "Trace_Schema.cfg", rep, events, describe)
+
+
+def validate_events_generic(module, cfg, rep, events, describe):
     idx = list(range(len(events)))
     nch = min(common.NCPU, max(1, len(events) // 40))
     chunks = [events[k::nch] for k in range(nch)]
     cidx = [idx[k::nch] for k in range(nch)]
-    results = common.validate_traces_parallel("Trace_Schema", "Trace_Schema.cfg", chunks, timeout=1500)
+    results = common.validate_traces_parallel(module, cfg, chunks, timeout=1500)
     for k, res in enumerate(results):
         rest, rest_idx = chunks[k], cidx[k]
         guard = 0
@@ -88,13 +92,13 @@ def validate_events(rep, events, describe):
             guard += 1
             fu = res["first_unmatched"]
             if fu is None or fu < 1:
-                raise common.ToolError("Trace_Schema failed without reject index:\n" + res["out"][-2500:])
+                raise common.ToolError(f"{module} failed without reject index:\n" + res["out"][-2500:])
             what, scenario, observed = describe(rest_idx[fu - 1])
-            rep.violation(what, scenario, expected="Trace_Schema.tla", observed=observed)
+            rep.violation(what, scenario, expected=module + ".tla", observed=observed)
             rest, rest_idx = rest[fu:], rest_idx[fu:]
             if not rest:
                 break
-            res = common.validate_trace("Trace_Schema", "Trace_Schema.cfg", rest, timeout=1500)
+            res = common.validate_trace(module, cfg, rest, timeout=1500)
     return nch
 
 
